@@ -320,7 +320,13 @@ class Host:
             spec = jcopy(src.spec)
             spec['id'] = op['dst']
             if op.get('depth') == 'deep':
-                user = copy.deepcopy(src.user)
+                try:
+                    user = copy.deepcopy(src.user)
+                except Exception:  # noqa -- the library put something into the cache that cannot be copied:
+                    # this host then copies its own settings and starts the copy with an empty cache
+                    user = copy.deepcopy(dict((k, v) for k, v in src.user.items() if k != 'cache'))
+                    if 'cache' in src.user:
+                        user['cache'] = {}
                 if spec.get('cache') is not None:
                     new_cache = '%s~%s' % (spec['cache'], op['dst'])
                     self.caches[new_cache] = user['cache']
